@@ -320,8 +320,14 @@ func (g *G) Expr(t *Type, depth int) Expr {
 		case 6, 7, 8:
 			op := rapid.SampledFrom([]string{"gleich", "ungleich"}).Draw(g.t, "op")
 			et := g.anyType("eqt")
+			if g.chance("eq-list-bias", 35) {
+				et = ListOf(g.scalarType("eq-elem"))
+			}
 			g.feat("bin:" + op + ":" + eqClass(et))
 			l := g.Expr(et, d)
+			if (et.K == KList || et.K == KText || et.K == KStruct) && g.chance("eq-literal-lhs", 50) {
+				l = g.lit(et) // literal operands make the near-miss construction below possible
+			}
 			r := g.Expr(et, d)
 			if g.chance("eq-same-operand", 25) { // make equality hold more often than by chance
 				r = l
